@@ -13,7 +13,8 @@ use zkabacus_crypto as za;
 
 pub struct C01;
 
-pub const STRATEGIES: [(&str, usize); 10] = [
+pub const STRATEGIES: [(&str, usize); 11] = [
+    ("structured-lie", 8),
     ("compensating-shift", 5),
     ("control", 1),
     ("lying-honest-prover", 7),
@@ -509,6 +510,59 @@ fn run_case(o: &mut Outcome, case: &Value) {
             let at = attack(m, &ag, seed, &draft, &mut build, o);
             accepted = if at.accepted { Some((at, last_hidden, dt.st.bf, dt.cl.bf)) } else { None };
         }
+        "structured-lie" => {
+            // lies that a sloppy comparison might let through, proved with the honest linking:
+            // balances congruent to the agreed ones modulo 2^64 / 2^128, and two-slot lies inside
+            // one message whose offsets cancel in a sum
+            let mut h = truth.clone();
+            let two64 = refc::int_scalar(1i128 << 64);
+            let names = ["customer+2^64", "merchant+3*2^64", "both+2^64", "customer+2^128", "close-balances-sum-preserving", "state-balances-sum-preserving", "both-messages-sum-preserving", "id+2^64"];
+            match variant % 8 {
+                0 => {
+                    h.st[3] += two64;
+                    h.cl[3] += two64;
+                }
+                1 => {
+                    h.st[4] += two64 + two64 + two64;
+                    h.cl[4] = h.st[4];
+                }
+                2 => {
+                    h.st[3] += two64;
+                    h.cl[3] += two64;
+                    h.st[4] += two64;
+                    h.cl[4] += two64;
+                }
+                3 => {
+                    h.st[3] += two64 * two64;
+                    h.cl[3] = h.st[3];
+                }
+                4 => {
+                    h.cl[3] += delta;
+                    h.cl[4] -= delta;
+                }
+                5 => {
+                    h.st[3] += delta;
+                    h.st[4] -= delta;
+                }
+                6 => {
+                    h.st[3] += delta;
+                    h.st[4] -= delta;
+                    h.cl[3] += delta;
+                    h.cl[4] -= delta;
+                }
+                _ => {
+                    h.st[0] += two64;
+                    h.cl[0] += two64;
+                }
+            }
+            site = format!("structured-lie/{}", names[variant % 8]);
+            o.bump("fault.byzantine.structured-lie");
+            let d = est_draft_linked(m, &h, &mut s);
+            let draft = assemble_est(&template, &d, None, &EstOverrides::default());
+            let mut build = |c: &Scalar| assemble_est(&template, &d, Some(c), &EstOverrides::default());
+            let at = attack(m, &ag, seed, &draft, &mut build, o);
+            accepted = if at.accepted { Some((at, h, d.st.bf, d.cl.bf)) } else { None };
+        }
         "compensating-shift" => {
             // two cooperating sub-proofs: the state commits to the agreed value minus delta in one
             // slot, the close state to the agreed value plus delta; T's are honest and the responses
@@ -649,7 +703,7 @@ impl Prop for C01 {
         v
     }
     fn rule(&self) -> String {
-        "one case = one session between the real merchant (initialize, then activate) and a Byzantine customer: fresh agreed (channel id, balances from the boundary lattice or random, context); after the accept-the-truth control the actor runs one strategy of the family {honest prover lying in one slot (7), cross-slot substitution (4), one violated relation / invalid sub-proof (12), compensating shifts between the two sub-proofs (5), post-challenge choice of each revealed commitment scalar (4), of each scalar commitment T (2), of each commitment C (2), of several at once (3), replay of an accepted proof under other agreed values (2)} using probe -> read the merchant's challenge through the hook -> adapt -> resubmit (up to three rounds). Distinct = distinct (strategy, variant, balances, seed); non-trivial = an attack (not just the control) was run".into()
+        "one case = one session between the real merchant (initialize, then activate) and a Byzantine customer: fresh agreed (channel id, balances from the boundary lattice or random, context); after the accept-the-truth control the actor runs one strategy of the family {honest prover lying in one slot (7), cross-slot substitution (4), one violated relation / invalid sub-proof (12), compensating shifts between the two sub-proofs (5), structured lies (balances congruent mod 2^64 / 2^128, sum-preserving two-slot lies) (8), post-challenge choice of each revealed commitment scalar (4), of each scalar commitment T (2), of each commitment C (2), of several at once (3), replay of an accepted proof under other agreed values (2)} using probe -> read the merchant's challenge through the hook -> adapt -> resubmit (up to three rounds). Distinct = distinct (strategy, variant, balances, seed); non-trivial = an attack (not just the control) was run".into()
     }
     fn assumptions(&self) -> Vec<String> {
         vec![
